@@ -970,7 +970,7 @@ func genC03(r *simrt.Rand, tier string) any {
 func init() {
 	Register(&Prop{
 		ID: "C03", Level: "exploration",
-		Rule:    "one case = a history of 4-18 CREATE calls (every mode UNCHECKED/GUARDED/EXCLUSIVE, sattr3 subsets incl. size/mode/uid/times, verifiers equal to or different from the creating call's) against names occupied by nothing, a regular file with unique data, a directory, a symlink (dangling or not), interleaved with READ/REMOVE/clock advances; oracle: GUARDED on existing => NFS3ERR_EXIST, EXCLUSIVE on existing => OK only for the creating verifier, existing file bytes identical afterwards unless size was set, backend tree == model; 30% of the cases inject 1-2 backend errors (lstat/stat at the existence check, create, open, truncate, chmod, chown, close; or the remove of a REMOVE between two CREATEs) inside some request: a faulted CREATE may fail with any status but must still not succeed where the mode forbids it nor change the data of an existing file; a quarter of these instead shorten every per-procedure time-out to 100 ms-2 s and let one backend call of some CREATE (create, open, lstat, chmod, close, truncate) take 2.5-11.5 s: nothing may happen to the name after the CREATE has been answered; a fifth of all cases are the concurrent class: 2-4 clients send CREATE for ONE name at the same time on separate connections (all EXCLUSIVE with 1-3 distinct verifiers, all GUARDED, or mixed with UNCHECKED; name absent or (25%) present with data; 40% followed by a WRITE through the returned handle; 2-4 workers, 0-2 backend stalls of 0.1-40 ms, every interleaving decided by the seeded scheduler) - at most one GUARDED create succeeds, in an all-EXCLUSIVE run all successful creates carry one verifier, GUARDED never succeeds on a pre-existing name, and the pre-existing bytes beyond the longest acknowledged write survive; non-trivial = at least one CREATE; distinct by event digest",
+		Rule:    "one case = a history of 4-18 CREATE calls (every mode UNCHECKED/GUARDED/EXCLUSIVE, sattr3 subsets incl. size/mode/uid/times, verifiers equal to or different from the creating call's) against names occupied by nothing, a regular file with unique data, a directory, a symlink (dangling or not), interleaved with READ/REMOVE/clock advances; oracle: GUARDED on existing => NFS3ERR_EXIST, EXCLUSIVE on existing => OK only for the creating verifier, existing file bytes identical afterwards unless size was set, backend tree == model; 30% of the cases inject 1-2 backend errors (lstat/stat at the existence check, create, open, truncate, chmod, chown, close; or the remove of a REMOVE between two CREATEs) inside some request: a faulted CREATE may fail with any status but must still not succeed where the mode forbids it nor change the data of an existing file; a quarter of these instead shorten every per-procedure time-out to 100 ms-2 s and let one backend call of some CREATE (create, open, lstat, chmod, close, truncate) take 2.5-11.5 s: nothing may happen to the name after the CREATE has been answered; a fifth of all cases are the concurrent class: 2-4 clients send CREATE for ONE name at the same time on separate connections (all EXCLUSIVE with 1-3 distinct verifiers, all GUARDED, or mixed with UNCHECKED; name absent or (25%) present with data; 40% followed by a WRITE through the returned handle; 2-4 workers, 0-2 backend stalls of 0.1-40 ms, every interleaving decided by the seeded scheduler) - at most one GUARDED create succeeds, in an all-EXCLUSIVE run all successful creates carry one verifier, GUARDED never succeeds on a pre-existing name, and the pre-existing bytes beyond the longest acknowledged write survive; in 30% of the concurrent runs that start without the name one more client RENAMEs a file with data onto the name while the creates (then all GUARDED, none writing) are in the server: a RENAME answered NFS3_OK leaves exactly the moved bytes at the name, whichever order the requests took (probe c03.rename_onto_name_while_creating); non-trivial = at least one CREATE; distinct by event digest",
 		Gen:     genC03,
 		New:     func() any { return &SeqScn{} },
 		Run:     runSeq("C03."),
